@@ -2,6 +2,7 @@ import Driver.Bep42
 import Driver.Tid
 import Driver.Token
 import Driver.Storage
+import Driver.Table
 open Btdht Btdht.Driver
 
 /-- Generic loop for a stateful engine: one op per stdin line, one canonical line out. -/
@@ -22,4 +23,5 @@ def main (args : List String) : IO UInt32 := do
   | ["tid"] => loopS stdin stdout tidStep {}; return 0
   | ["token"] => loopS stdin stdout tokenStep {}; return 0
   | ["storage"] => loopS stdin stdout storageStep Storage.empty; return 0
+  | ["table"] => loopS stdin stdout tableStep {}; return 0
   | _ => IO.eprintln "usage: btdht_model <engine>"; return 2
